@@ -70,9 +70,42 @@ def combination_cases(tier):
             yield ('combo', ('mp=%s/%d' % k, 'ipv4=nlri+withdraw'), {'attr': attr, 'nlri': ['192.0.2.0/25'], 'withdraw': ['10.1.0.0/16']}, True)
 
 
+_maxsize = []
+
+
+def max_size_cases():
+    """UPDATEs of exactly 4092..4096 octets (and the largest attribute-only / withdraw-only ones): filled with distinct /32, /24,
+    /16 and /8 prefixes until the reference encoder says the message has the wanted size"""
+    if _maxsize:
+        return _maxsize
+    base = {1: 0, 2: [(2, [64512, 65001])], 3: '10.0.0.9'}
+    host = ['10.%d.%d.%d/32' % (1 + i // 65536, (i // 256) % 256, i % 256) for i in range(900)]
+    filler = ['172.16.%d.0/24' % i for i in range(4)] + ['172.%d.0.0/16' % (20 + i) for i in range(4)] + ['%d.0.0.0/8' % (100 + i) for i in range(4)]
+    for where in ('nlri', 'withdraw'):
+        for total in (4092, 4093, 4094, 4095, 4096):
+            msg = {'attr': dict(base)} if where == 'nlri' else {}
+            lst = []
+            msg[where] = lst
+            for p in host:
+                lst.append(p)
+                if len(upd.encode_update(msg, True, False, None)) > total - 5:
+                    break
+            need = total - len(upd.encode_update(msg, True, False, None))
+            # 5 = 4 + 1, 4 + ... : express the remainder with /24 (4 octets), /16 (3), /8 (2)
+            for size, pool_ in ((4, filler[0:4]), (3, filler[4:8]), (2, filler[8:12])):
+                for p in pool_:
+                    if need - size >= 0 and need - size != 1:
+                        lst.append(p)
+                        need -= size
+            if need == 0 and len(upd.encode_update(msg, True, False, None)) == total:
+                _maxsize.append(('ipv4-unicast', ('size=%d' % total, 'where=' + where), msg, True))
+    return _maxsize
+
+
 def cases_of(which, tier):
     if which == 'c06':
-        return pools.c06_cases(tier)
+        import itertools
+        return itertools.chain(pools.c06_cases(tier), max_size_cases())
     import itertools
     return itertools.chain(pools.c07_cases(tier), boundary_cases(), combination_cases(tier))
 
